@@ -73,6 +73,12 @@ def run(tier):
         base = base[::10]
     base += [{"src": p["src"], "origin": "%s/%s" % (p["family"], p["kind"])} for p in progs if p["family"] != "MC_C01"][:: (40 if tier == "quick" else 6)]
     base += [{"src": t, "origin": "sample:" + rel} for rel, t in corpus.repo_samples(kinds=("valid",))]
+    # every kind of simple statement at every kind of block position (spec/MC_C14.tla)
+    r2 = vlib.tlc("MC_C14", "MC_C14.cfg")
+    chk.add_tlc(r2)
+    for c in sorted(r2.records, key=lambda c: (c["stmt"], c["position"])):
+        if len(c["lines"]) > 1:
+            base.append({"src": "".join("    " * l["ind"] + l["text"] + "\n" for l in c["lines"]), "origin": "MC_C14/%s@%s" % (c["stmt"], c["position"])})
     variants = []
     for b in base:
         ls, _ = split_lines(b["src"])
